@@ -96,7 +96,7 @@ class DriverStep(Lane):
         state = {'done': False}
 
         resp_ctrls = VecV([])
-        if ev_ == 'resp':
+        if ev_ == 'resp' and '_inject' not in d:
             body = [T(0, 10, [d['rc']]), T(0, 4, []), T(0, 4, [])]
             protoop = C(1, d['optag'], body)
             d['_protoop'] = protoop
@@ -130,6 +130,8 @@ class DriverStep(Lane):
             if state['done']: return PENDING
             if ev_ == 'resp':
                 state['done'] = True; log['consumed'].append('stream')
+                if '_inject' in d:
+                    return Some(Ok(clone_val(d['_inject'])))         # an item exactly as the real decoder produced it (C11)
                 return Some(Ok(Tup([d['id'], Tup([EnumV('Tag', 'StructureTag', [clone_val(d['_protoop'])]), resp_ctrls])])))
             if ev_ == 'resp-eof': state['done'] = True; log['consumed'].append('stream'); return NONE()
             if ev_ == 'resp-err': state['done'] = True; log['consumed'].append('stream'); return Some(Err(Opaque('io::Error', 'decoding error')))
